@@ -30,7 +30,7 @@ struct Workload {
     calls: Vec<&'static str>,
 }
 
-const PLACEMENTS: [&str; 5] = ["no-finalize", "finalize-after-each-write", "finalize-in-the-middle", "finalize-first", "finalize-twice-at-end"];
+const PLACEMENTS: [&str; 6] = ["no-finalize", "finalize-after-each-write", "finalize-in-the-middle", "finalize-first", "finalize-twice-at-end", "all-shapes-through-one-write_shapes-call"];
 
 fn record(t: i32, placement: usize, shapes: &[Shape]) -> Workload {
     let shp = Dest::new();
@@ -50,6 +50,24 @@ fn record(t: i32, placement: usize, shapes: &[Shape]) -> Workload {
         };
         if placement == 3 {
             fin(&mut w, 0, &mut calls, &mut epoch);
+        }
+        if placement == 5 {
+            // the consuming bulk route: one call (its own finalize and the drop run inside it)
+            epoch += 1;
+            shp.set_epoch(epoch);
+            shx.set_epoch(epoch);
+            calls.push("write_shapes");
+            crate::e_c09::write_tail(w, &shapes.iter().collect::<Vec<&Shape>>()).expect("harness: bulk write on a healthy destination failed");
+            commits.push((shp.n_ops(), shapes.len()));
+            return Workload {
+                t,
+                placement,
+                want: shapes.iter().map(|s| s.d().expected_after_roundtrip()).collect(),
+                shp_ops: shp.ops(),
+                shx_ops: shx.ops(),
+                commits,
+                calls,
+            };
         }
         for (i, s) in shapes.iter().enumerate() {
             epoch += 1;
